@@ -77,6 +77,14 @@ pub const RULES: &[(&str, &[&str])] = &[
     ("io.bytes_corrupted", &["C17"]),
     ("io.task_not_woken", &["C17", "C02"]),
     ("io.no_progress", &["C17"]),
+    ("transient.event_from_wrong_child", &["C18", "C01"]),
+    ("transient.double_register", &["C18"]),
+    ("transient.double_unregister", &["C18"]),
+    ("transient.dropped_registered", &["C18"]),
+    ("transient.registration_mismatch", &["C18", "C16"]),
+    ("transient.child_not_dropped", &["C18"]),
+    ("transient.bad_post_action", &["C18"]),
+    ("transient.map", &["C18"]),
     ("stream.after_end", &["C10"]),
     ("stream.items_left", &["C10", "C02"]),
     ("stream.wrong_item", &["C10", "C01"]),
